@@ -136,6 +136,7 @@ type Body struct {
 	Implicit bool // no declared parameters: the body reads `\` and `\k`
 	Origin   int  // where the literal is evaluated (see origins)
 	Factory  bool // the literal is the second product of a factory whose parameter is the keyword default
+	KwOnly   bool // no positional parameter: the position is the keyword `i`
 }
 
 // origins: the literal written at top level, or evaluated inside a function, a method, or another iterator's body
@@ -151,8 +152,19 @@ func (b Body) src() string {
 		n = names{"\\", "\\k"} // \k exists only when the keyword was passed: implicit bodies are always given k
 		head = ""
 	}
+	if b.KwOnly {
+		head = fmt.Sprintf("|i: 0, k: %d| ", b.K0)
+	}
 	for _, s := range b.Stmts {
 		parts = append(parts, s.src(n))
+	}
+	if b.KwOnly {
+		for i, pt := range parts {
+			if strings.HasPrefix(pt, "recur(") {
+				parts[i] = "recur(i: " + strings.TrimPrefix(pt, "recur(")
+			}
+		}
+		return "<{" + head + strings.Join(parts, "; ") + "}>"
 	}
 	if b.Factory && !b.Implicit {
 		// the literal is made by a factory that was called before with another value for the keyword default
@@ -201,6 +213,8 @@ func genBody() *rapid.Generator[Body] {
 			b.Origin = rapid.IntRange(1, len(origins)-1).Draw(t, "origin")
 		} else if rapid.IntRange(0, 3).Draw(t, "factory") == 0 {
 			b.Factory = true
+		} else if !b.Implicit && rapid.IntRange(0, 3).Draw(t, "keyword-only") == 0 {
+			b.KwOnly = true
 		}
 		genExpr := func(l string) Expr {
 			k := rapid.SampledFrom([]string{"i", "i", "i*k+c", "i*k+c", "i+n", "k", "c", "const", "nil", "table", "table"}).Draw(t, l)
@@ -363,10 +377,14 @@ func TestIteratorProtocol(t *testing.T) {
 			nm := fmt.Sprintf("it%d", len(m.names))
 			i0 := rapid.IntRange(-1, 3).Draw(t, "i0")
 			st := &state{i: i0, k: m.body.K0}
-			stmt := fmt.Sprintf("%s := %s.new(%d)", nm, src, i0)
+			ipos := fmt.Sprint(i0)
+			if m.body.KwOnly {
+				ipos = fmt.Sprintf("i: %d", i0)
+			}
+			stmt := fmt.Sprintf("%s := %s.new(%s)", nm, src, ipos)
 			if rapid.Bool().Draw(t, "withk") || m.body.Implicit {
 				st.k = rapid.IntRange(1, 4).Draw(t, "k")
-				stmt = fmt.Sprintf("%s := %s.new(%d, k: %d)", nm, src, i0, st.k)
+				stmt = fmt.Sprintf("%s := %s.new(%s, k: %d)", nm, src, ipos, st.k)
 			}
 			m.exec(t, stmt)
 			m.names = append(m.names, nm)
@@ -501,6 +519,22 @@ func TestIteratorProtocol(t *testing.T) {
 				}
 				vt.Class("action chain whose callee advances another iterator")
 				m.ask(t, "chain-callee-next", q, want, strings.Join(trace, " "))
+			},
+			"chain-over-bear-child": func(t *rapid.T) {
+				// an object made by `it.bear(...)` iterates like it, and doing so does not advance `it`
+				need(t)
+				nm := pick(t)
+				vals, traces, finite := m.remaining(*m.models[nm])
+				if !finite {
+					t.Skip("endless iterator: chains are not applied")
+				}
+				if nm == lastNext {
+					chainBetween = true
+				}
+				nontrivial = true
+				q := rapid.SampledFrom([]string{"%s.bear({zz: 1}).A", "%s.bear({zz: 1})@{|x| x}", "%s.bear.bear({q: 2}).A"}).Draw(t, "form")
+				vt.Class("action chain over a bear child of an iterator")
+				m.ask(t, "bear-child-chain", fmt.Sprintf(q, nm), list(vals, true), strings.Join(traces, " "))
 			},
 			"reassign-captured": func(t *rapid.T) {
 				m.c = rapid.IntRange(0, 4).Draw(t, "c")
